@@ -225,7 +225,7 @@ fn variation_cases(tier: Tier) -> Vec<(String, Vec<(String, Vec<u8>)>, ArcLayout
             }
         }
     }
-    let (counts, blen, nlen) = tier.pick((300usize, 200usize, 300usize), (1200, 700, 1200));
+    let (counts, blen, nlen) = tier.pick((300usize, 200usize, 1700usize), (1200, 700, 4400));
     for n in 0..=counts {
         v.push((format!("{} files", n), (0..n).map(|i| (format!("f{}", i), body(i % 5, (i * 7) % 6))).collect(), lay(n, n % 2 == 0, n % 3 == 0), ArcTweak { label_records: (n % 3) as u8, data_label: n % 2 == 1, ..Default::default() }));
     }
